@@ -13,6 +13,10 @@ class SimKill(BaseException):
     """Raised inside a simulated thread that is torn down at the end of a run."""
 
 
+class SimWorkerDeath(BaseException):
+    """The (simulated) pool worker process that runs this code dies on the spot (os._exit, OOM kill)."""
+
+
 class SimCrash(BaseException):
     """The simulated process this thread belongs to has died."""
 
